@@ -56,7 +56,7 @@ func c09OffsetAccounting(c *Ctx) {
 		if funcPkgPath(f) != modPath {
 			continue
 		}
-		for _, in := range findInstrs(f, StoresTo(wb)) {
+		for _, in := range findInstrsLocal(f, StoresTo(wb)) {
 			st := in.(*ssa.Store)
 			// appends grow the buffer
 			if cl, ok := st.Val.(*ssa.Call); ok && builtinName(&cl.Call) == "append" {
